@@ -100,7 +100,9 @@ claim('C09',
       'Coq theorems, unconditional: the tables/rules/reduce shapes read from parser.rs and parser.kiki on every run pass the validator by '
       'vm_compute and equal the hand-written grammar of record; hence for every token sequence the front end never panics, accepts exactly '
       'the sentences of the published grammar, and a rejection is not too late; for every source text a syntax error carries exactly the byte span '
-      'and text of the first token after which no valid file can continue, or the empty span at the end of the source (Lex/Spans.v + ErrPos). '
+      'and text of the first token after which no valid file can continue, or the empty span at the end of the source (Lex/Spans.v + ErrPos); '
+      'and the front end is the inverse of a printer (Front/Unparse.v): whenever it returns an AST, the token sequence it read is exactly `unparse ast` '
+      '(positions apart), so two different token sequences never give the same AST and nothing of the input is dropped or invented. '
       '"Not too early" is decided per input by an Earley oracle over an independently written grammar and the lexical specification.',
       COMMON_NOTE + 'cst_to_ast is modelled together with the reduce functions (Front/Cst2Ast.v) and compared.',
       'Translation (tables regenerated from parser.rs) + Coq validator by vm_compute + Tier A theorems', 'DESIGN.md §5 C09')
@@ -120,7 +122,10 @@ claim('C11',
       'with a brute-force LALR(1) reference, and the FIRST map alone (hook first_sets) with FIRST by its defining rules.',
       COMMON_NOTE, 'Coq proof (builder-table invariant) + differential + brute-force LALR(1) isomorphism', 'DESIGN.md §5 C11')
 claim('C12',
-      'Coq theorems: attributes are emitted verbatim, one per line, immediately before their type definition. Byte-exactness and "nowhere else" '
+      'Coq theorems: attributes are emitted verbatim, one per line, immediately before their type definition; and the front-end link '
+      '(Front/AttrSource.v): for every source the model of generate accepts, the attributes stored with a struct, enum or terminal declaration are '
+      'exactly the attribute tokens of the SOURCE that stand directly before its keyword, in order, with their text '
+      '(C12_stored_attributes_are_the_tokens_before_the_keyword). Byte-exactness and "nowhere else" '
       'on the real output are decided by an oracle on the emitted text.',
       COMMON_NOTE, 'Coq proof (emitter decomposition lemmas) + oracle on real output', 'DESIGN.md §5 C12')
 claim('C13',
@@ -150,9 +155,13 @@ claim('C16',
       'the same text further right gives the same tokens and the same lexical error, shifted. Whole pipeline (PositionsProofs.v): two sources with '
       'the same token contents give for the same digest the same emitted text byte for byte, or the same error up to positions (syntax errors '
       'included: their text is the text of the offending token) — the parser, cst_to_ast, validate_ast, the automaton, the table and the emitter '
-      'each commute with erasing every stored position. Not proved: the exact position map of a shifted non-lexical error; invariance of the whole result is also '
+      'each commute with erasing every stored position. And the exact position map (PosMapProofs.v): the stored positions of a tokenised text increase '
+      'strictly, so two layouts of the same tokens are related by a function pf on stored positions; for EVERY such pf the second result is the first '
+      'with pf applied to each position an error carries (the attached grammar of a table conflict included) — every stage commutes with an arbitrary '
+      'position map, the automaton construction and the emitter return no error value — and a syntax error is at the same token with that token\'s own '
+      'span and text, or at the end of either source. Invariance of the whole result is also '
       'decided per pair (source, random re-layout) on the crate, modulo hash line / position map.',
-      COMMON_NOTE, 'Coq proof (lexical specification: gap and shift theorems; position-erasure commutes with every later stage) + metamorphic differential', 'DESIGN.md §5 C16')
+      COMMON_NOTE, 'Coq proof (lexical specification: gap and shift theorems; every later stage commutes with an arbitrary map of the stored positions) + metamorphic differential', 'DESIGN.md §5 C16')
 claim('C17',
       'Coq theorems: for validated tables every non-error cell is demanded by an item and every demand/transition of an item is in the table; '
       'the same for the tables of every grammar the model of generate accepts, with the machine\'s own item sets as annotation (closed states, '
